@@ -240,9 +240,15 @@ class Exec:
         self.str_facts[key] = True
         self.add(z3.And(sel >= 0, sel <= 255))
 
-    def _check(self, *extra):
+    def _check(self, *extra, budget_ms=None):
         t0 = time.time()
         self.nqueries += 1
+        if budget_ms is not None:
+            self.solver.set("timeout", budget_ms)
+            try:
+                return self._check(*extra)
+            finally:
+                self.solver.set("timeout", self.timeout_ms)
         if extra:
             self.solver.push()
             for e in extra:
@@ -274,7 +280,8 @@ class Exec:
             return True
         if z3.is_false(term):
             return False
-        return self._check(z3.Not(term)) == z3.unsat
+        # a side query that only buys precision: bounded so that a hard instance cannot stall the exploration
+        return self._check(z3.Not(term), budget_ms=5000) == z3.unsat
 
     def concretize(self, t):
         """python int if the term has a single possible value under pc, else the term"""
@@ -1315,12 +1322,16 @@ class Exec:
             c = self.eval(node.test, fr)
             t = self.truth_value(c)
             if not isinstance(t, bool):
-                raise Unsupported("while loop with symbolic condition (needs an invariant)")
+                # symbolic condition: both continuations are explored; sound as long as every path leaves the loop
+                # within the cap (otherwise the unit is undecided)
+                if self.spec_mode:
+                    raise Unsupported("while loop with symbolic condition in a specification")
+                t = self.branch(t.t, tag=f"while@{node.lineno}")
             if not t:
                 break
             n += 1
-            if n > 100000:
-                raise Unsupported("while loop bound")
+            if n > 70:
+                raise Unsupported("while loop not finished after 70 iterations (needs an invariant)")
             try:
                 self.exec_block(node.body, fr)
             except BreakSig:
@@ -1362,7 +1373,7 @@ class PathResult:
 
 
 def explore(world, body, unit, contracts=None, max_paths=20000, timeout_ms=SOLVER_TIMEOUT_MS, on_path=None,
-            setup=None):
+            setup=None, keep_ex=True):
     """Enumerate all paths of `body(ex)`.  body returns a value or raises PyRaise; it may call ex.check."""
     global _CUR
     work = [[]]
@@ -1395,6 +1406,10 @@ def explore(world, body, unit, contracts=None, max_paths=20000, timeout_ms=SOLVE
         finally:
             ex.rollback()
             _CUR = prev
-        results.append(res)
         work.extend(ex.pending)
+        if not keep_ex:
+            res.ex = None          # the solver and all terms of the path are released right away
+            res.vcs = None
+            res.value = None
+        results.append(res)
     return results
